@@ -394,6 +394,28 @@ def _first_field(sc, cls):
     return sc["leaves"][cls][0][0]
 
 
+def sub_anns(sc):
+    """the annotation written for every (class, field) of the family, in the grammar of Model/Replace.v `ann`."""
+    out = []
+    for name, fs in list(sc["leaves"].items()) + list(sc["frozen"].items()):
+        out += [[name, fn, "other"] for fn, _v in fs]
+    for name, fs in sc["conts"].items():
+        for fn, kind, extra in fs:
+            if kind == "subg":
+                members = sorted({c for _k, _h, c in extra["table"]})
+                a = "dc" if len(members) == 1 else ["union", ["dc"] * len(members)]
+            elif kind in ("subgf", "nest"):
+                a = "dc"
+            elif kind == "opt":
+                a = ["union", ["dc", "none"]]
+            elif kind == "union":
+                a = ["union", ["dc", "dc"]]
+            else:
+                a = "other"
+            out.append([name, fn, a])
+    return out
+
+
 def sub_members(sc, kind, extra):
     """classes a field of that kind may hold."""
     if kind == "subg":
@@ -524,6 +546,7 @@ def gen_sub(rng, n_schema, per):
     for _ in range(n_schema):
         sc = gen_sub_schema(rng)
         src = sub_source(sc)
+        anns = sub_anns(sc)
         root = sorted(sc["conts"])[-1]
         for j in range(per):
             obj = sub_instance(rng, sc, root, rng.choice([0.2, 0.5, 1.0]))
@@ -538,7 +561,7 @@ def gen_sub(rng, n_schema, per):
                     sels = sub_selections(rng, sc, root, obj, [], 0.8, p_bad, 0.2)
             passed = render_sel(rng, sels, rng.choice([0.0, 0.5, 1.0]))
             sel = passed if (sels or rng.random() < 0.5) else None
-            cases.append(dict(kind="sub", src=src, obj=obj, sel=sel, abs=sels, malformed=None))
+            cases.append(dict(kind="sub", src=src, obj=obj, sel=sel, abs=sels, malformed=None, anns=anns))
     return cases
 
 
@@ -1195,12 +1218,19 @@ def ctables(t):
     return f"(mktables {clist(metas)} {cdict(t['classes'])})"
 
 
+def cann(a):
+    if isinstance(a, list):
+        return f"(AUnion {clist([cann(x) for x in a[1]])})"
+    return {"dc": "ADc", "other": "AOther", "none": "ANoneType"}[a]
+
+
 def to_coq_sub(case, obs):
     sel = "None" if case["sel"] is None else f"(Some {csdict(case['sel'])})"
     ab = "None" if case["abs"] is None else \
         "(Some " + clist([cpair(clist([cstr(x) for x in p]), cchoice(c)) for p, c in case["abs"]]) + ")"
     return (f"CSub (mkscase {ctables(obs['tables'])} {cval(obs['before'])} {sel} {ab} {_cres(obs['obs'], cval)} "
-            f"{cbool(obs['input_unchanged'])} {csdict(obs['unflat'])})")
+            f"{cbool(obs['input_unchanged'])} {csdict(obs['unflat'])} "
+            + clist([f"({cstr(c)}, {cstr(f)}, {cann(a)})" for c, f, a in (case.get("anns") or []) if not obs.get("setup_failed")]) + ")")
 
 
 def to_coq(case, obs):
